@@ -626,6 +626,23 @@ pub fn check_pair(x: &Build, y: &Build) -> Result<(), String> {
     Ok(())
 }
 
+pub fn replay_route(c: &J) -> Result<(), String> {
+    let r = R::from_json(&c["recipe"]);
+    let route = c["route"].as_str().unwrap_or("").to_string();
+    let r2 = r.clone();
+    match quiet_catch(AssertUnwindSafe(move || route_build(&route, &r2))) {
+        Ok(Some(t)) => {
+            let got = R::canon_of_term(&t);
+            if got != r.canon() {
+                return Err(format!("the route gives {} for the value {}", got.show(), r.canon().show()));
+            }
+            Ok(())
+        }
+        Ok(None) => Ok(()),
+        Err(p) => Err(format!("the route panics: {p}")),
+    }
+}
+
 pub fn replay_case(c: &J) -> Result<(), String> {
     if c["op"].as_str() == Some("route") {
         let r = R::from_json(&c["recipe"]);
